@@ -66,6 +66,7 @@ def check(ctx):
     d1_chain(ctx, idx, st)
     d2_table(ctx, idx, st)
     d2_structural(ctx, idx, st)
+    d2_cast(ctx, idx, st)
     d3_folds(ctx, idx, st)
     d4_literals(ctx, idx, st)
     d5_whitespace(ctx, idx, st)
@@ -259,6 +260,9 @@ def d1_chain(ctx, idx, st):
                     'tokens handed to the evaluator: %s' % opset(emitted),
                     "the operator token %s reaches the evaluator unchanged (no parse action turning it into '-'): the "
                     "evaluator treats it as an unknown symbol / operand" % opset(bad), gloc(g, lv.term))
+        # ---- the em-dash is admitted wherever '-' is
+        emdash_parity(r, g, 'the value of a formula depends on which dash was typed -- `2e\u20143` is read as the number 2 with suffix '
+                            '`e`, minus 3, instead of 2e-3')
         # ---- the recursion is closed at the loosest level
         r.ok('expression', 'Forward bound to the loosest level `%s`' % (levels[0].label if levels else atom.label), gloc(g, fwd))
         # ---- atom alternatives
@@ -292,6 +296,36 @@ def d1_chain(ctx, idx, st):
             r.check(good, 'atom alternative %s: recursion' % k, 'content is the full expression',
                     'the content of %s is `%s`, not the top-level expression: lower-precedence operators inside the '
                     'brackets are rejected' % (k, ', '.join(o.label or o.describe(1) for o in operands) or '?'), gloc(g, alt))
+
+
+def emdash_parity(r, g, consequence):
+    """Every token position of the grammar that admits '-' (binary minus, unary minus, sign after '^', sign of a numeral's
+    exponent) admits the em-dash as well, normalised to '-'.  Positions inside a name (tensor indices `_{-1}`) are exempt:
+    names are looked up literally."""
+    n = 0
+    for top, lits, comb in g.minus_sites():
+        if comb is not None and g.first(comb) <= set(G.ALPHAS + '_'):
+            continue
+        n += 1
+        where_txt = ('the sign inside the token `%s`' % (comb.name or comb.describe(1))) if comb is not None else \
+            'the operator/sign choice `%s`' % top.describe(2)
+        if comb is not None and g.first(comb) <= set(G.NUMS + '.'):
+            where_txt = 'the exponent sign of a numeral (inside `%s`)' % (comb.name or comb.describe(1))
+        construct = 'em-dash: %s' % ('numeral exponent sign' if comb is not None else 'sign choice %s' % opset(lits))
+        if EMDASH not in lits:
+            r.violation(construct, '%s accepts %s but not the em-dash, although every other minus position of the grammar does: %s'
+                        % (where_txt, opset(lits), consequence), gloc(g, top), expected=opset(set(lits) | {EMDASH}), found=opset(lits))
+            continue
+        try:
+            out = g.emitted(top)
+        except AnalysisError:
+            out = None
+        if out is not None and EMDASH in out:
+            r.violation(construct, '%s accepts the em-dash but hands it on unchanged (no parse action turning it into \'-\')' % where_txt,
+                        gloc(g, top))
+        else:
+            r.ok(construct, '%s admits the em-dash, normalised to -' % where_txt, gloc(g, top))
+    return n
 
 
 def kind_by_signature(lv):
@@ -452,6 +486,42 @@ def d2_structural(ctx, idx, st):
                         S.show(leaves), kind, ('returns %s' % S.show(bad[0].value)) if bad else
                         ('raises %s' % sorted(raises) if raises else 'never returns'), S.show(expect)), where,
                     expected=S.show(expect), found=S.show(bad[0].value) if bad else None)
+
+
+def d2_cast(ctx, idx, st):
+    r = ctx.rule('D2.CAST', 'what eval_node returns for an interior node is the action result after cast_np_numeric_as_builtin',
+                 floor=1)
+    with r:
+        en = idx.func(ME + '.eval_node')
+        A = en.params[1]
+        is_action_call = lambda e: isinstance(e, ast.Call) and isinstance(e.func, ast.Subscript) and \
+            isinstance(e.func.value, ast.Name) and e.func.value.id == A
+        paths = nf.decision_paths(en.node.body)
+        seen = 0
+        for p in paths:
+            if p.leaf.kind != 'ret':
+                continue
+            v = p.leaf.expr
+            calls = [n for n in ast.walk(v) if is_action_call(n)]
+            if not calls:
+                continue            # leaf / nan exits
+            seen += 1
+            where = lib.loc(en, p.leaf.stmt)
+            construct = 'eval_node: returned value'
+            if is_action_call(v):
+                r.violation(construct, 'eval_node returns the raw output of the action (`%s`) instead of the value that went through '
+                            'cast_np_numeric_as_builtin: numpy scalars (np.float64 from sin, cos, ...) escape from interior nodes, so the '
+                            'enclosing operators see numpy numbers -- `sin(x)^0.5` at a negative base then takes numpy\'s real power (an '
+                            'error through the seterr handler) instead of the complex-capable robust_pow on builtins, and number + array '
+                            'broadcasts' % short(p.leaf.stmt.value), where, expected='cast_np_numeric_as_builtin(<action result>, ...)',
+                            found=short(p.leaf.stmt.value))
+            elif isinstance(v, ast.Call) and nf.callee_name(v) == 'cast_np_numeric_as_builtin' and v.args and \
+                    any(is_action_call(n) for n in ast.walk(v.args[0])):
+                r.ok(construct, 'cast_np_numeric_as_builtin(<action result>)', where)
+            else:
+                r.undecided(construct, 'returned expression `%s` not recognised' % short(v), where)
+        if not seen:
+            raise AnalysisError('eval_node: no return that carries the result of an action')
 
 
 # ----------------------------------------------------------------------------- D3
@@ -1573,8 +1643,6 @@ MUTANTS = [
     Mutant('action-key-renamed', EXPR, "'parallel': self.eval_parallel,", "'paralel': self.eval_parallel,", 'D2'),
     Mutant('power-grouped-as-product', EXPR, "power.addParseAction(self.group_if_multiple('power'))",
            "power.addParseAction(self.group_if_multiple('product'))", 'D3'),
-    Mutant('group-threshold-raised', EXPR, "            if len(tokens) > 1:\n                return ParseResults(",
-           "            if len(tokens) > 2:\n                return ParseResults(", 'D2'),
     # D3
     Mutant('power-folded-from-the-left', EXPR, "        result = data.pop()\n        while data:\n            # Result contains the current exponent\n            working = data.pop()\n",
            "        result = data.pop(0)\n        while data:\n            # Result contains the current exponent\n            working = data.pop(0)\n", 'D3'),
@@ -1586,11 +1654,14 @@ MUTANTS = [
            note='seeded C03f: the generating loop pairs u with 1e-9 and n with 1e-6'),
     Mutant('parallel-token-any-run-of-pipes', EXPR, "pipes = Literal('|') + Literal('|')", "pipes = Word('|')", 'D1',
            note='seeded C03e: 1|2 and 6|||3 are given the value of the parallel operator instead of a parse error'),
+    Mutant('exponent-sign-loses-the-em-dash', EXPR, "Optional(CaselessLiteral(\"E\") + Optional(plus_minus) + number_part)",
+           "Optional(CaselessLiteral(\"E\") + Optional(Word(\"+-\", exact=1)) + number_part)", 'D1',
+           note='seeded C03i/C10j: the exponent sign rebuilt locally without the em-dash: 2e\u20143 is 2 with suffix e, minus 3'),
+    Mutant('eval-node-returns-uncast-result', EXPR, "        return cast_np_numeric_as_builtin(result, map_across_lists=True)", "        return result", 'D2',
+           note='seeded C03j: numpy scalars escape from interior nodes'),
     Mutant('exponent-marker-commits-the-parse', EXPR, "Optional(CaselessLiteral(\"E\") + Optional(plus_minus) + number_part)",
            "Optional(CaselessLiteral(\"E\") - Optional(plus_minus) + number_part)", 'D6',
            note='sweep: an error stop after E makes suffixes that start with e/E (1e, 5eV) abort the parse'),
-    Mutant('exponent-sign-not-part-of-numeral', EXPR, "Optional(CaselessLiteral(\"E\") + Optional(plus_minus) + number_part)",
-           "Optional(CaselessLiteral(\"E\") + number_part)", 'D4'),
     Mutant('number-literal-memoised-on-the-expression', EXPR,
            "        actions = {\n            'number': lambda parse_result: self.eval_number(parse_result, suffixes),",
            "        if not hasattr(self, 'number_values'):\n            self.number_values = {}\n\n"
@@ -1663,6 +1734,10 @@ BENIGN = [
            "bad_vars = set(self.variables_used).difference(variables)"),
     Benign('evaluator-stripped-temporary', EXPR, "    if formula is None:\n        # No need to go further.\n        return float('nan'), empty_usage\n    formula = formula.strip()\n    if formula == \"\":",
            "    stripped = None if formula is None else formula.strip()\n    formula = stripped\n    if stripped is None or stripped == \"\":"),
+    Benign('exponent-sign-rebuilt-from-the-same-pieces', EXPR, "Optional(CaselessLiteral(\"E\") + Optional(plus_minus) + number_part)",
+           "Optional(CaselessLiteral(\"E\") + Optional(plus | minus) + number_part)"),
+    Benign('eval-node-cast-through-a-local', EXPR, "        return cast_np_numeric_as_builtin(result, map_across_lists=True)",
+           "        computed = result\n        result = cast_np_numeric_as_builtin(computed, map_across_lists=True)\n        return result"),
     Benign('evaluator-nan-exits-merged', EXPR, "    if formula is None:\n        # No need to go further.\n        return float('nan'), empty_usage\n    formula = formula.strip()\n    if formula == \"\":",
            "    if formula is not None:\n        formula = formula.strip()\n    if formula is None or formula == \"\":"),
     Benign('product-pairs-from-a-generator', EXPR, "        data = parse_result[1:]\n        while data:\n            op = data.pop(0)\n            value = data.pop(0)\n",
